@@ -17,7 +17,8 @@
    f76dbc9).  If either regresses, the proofs of the `_repo` lemmas stop compiling.  The two
    `_refuted_for_...` theorems record what was wrong with the earlier shapes. *)
 From Coq Require Import List NArith Bool Arith.
-From SV Require Import lib.Bytes lib.SqlExpr gen.GenSched model.Sched proofs.SchedProofs.
+From SV Require Import lib.Bytes lib.SqlExpr gen.GenSched model.Sched proofs.SchedProofs proofs.SchedPrims
+  proofs.SchedSeq.
 Import ListNotations.
 Open Scope N_scope.
 
@@ -193,12 +194,13 @@ Theorem C10_set_file_state_preserves_FlagInv_need :
     FlagInv_need g -> FlagInv_need (set_file_state g k st h).
 Proof. exact set_file_state_need_sound. Qed.
 
-(* A new step row (Step.initialize_row on a fresh node: no edges yet, nobody's creator yet; a row
-   created with _safe = 1 must not have a step as creator) *)
+(* A new step row (Step.initialize_row on a node without step row: no incoming edge -- Trellis.create
+   cuts the sources of a recycled node, its old sinks may remain --, nobody's creator; a row created
+   with _safe = 1 must not have a step as creator) *)
 Theorem C10_create_step_preserves_FlagInv :
   forall g k creator det need safe stored dur res rank,
     ~ In k (map s_key (g_steps g)) ->
-    (forall d, In d (g_deps g) -> d_src d <> k /\ d_snk d <> k) ->
+    (forall d, In d (g_deps g) -> d_snk d <> k) ->
     (forall s, In s (g_steps g) -> s_creator s <> Some k) ->
     CreatorRank g rank ->
     (safe = true ->
@@ -213,6 +215,65 @@ Proof.
   - apply create_step_need_sound; assumption.
   - apply create_step_ready_sound; assumption.
 Qed.
+
+(* Deleting a step row (DELETE FROM step in Step.initialize_row; DELETE FROM node in delete_detached):
+   the step is nobody's creator and has no incoming edge (its outgoing edges may remain); the
+   remaining creator forest is well founded.  No other step's specification reads the deleted row. *)
+Theorem C10_delete_step_preserves_FlagInv :
+  forall g k rank,
+    (forall s, In s (g_steps g) -> s_creator s <> Some k) ->
+    (forall d, In d (g_deps g) -> d_snk d <> k) ->
+    CreatorRank (delete_step g k) rank ->
+    FlagInv g -> FlagInv (delete_step g k).
+Proof. intros g k rank H1 H2 HR HF. eapply delete_step_sound; eassumption. Qed.
+
+(* Deleting the row of a file without edges (delete_detached: a detached sink-free node whose sources
+   were just deleted), creating a file row on a fresh node *)
+Theorem C10_delete_file_preserves_FlagInv :
+  forall g k, (forall d, In d (g_deps g) -> d_src d <> k /\ d_snk d <> k) ->
+    FlagInv g -> FlagInv (delete_file g k).
+Proof. exact delete_file_sound. Qed.
+Theorem C10_create_file_preserves_FlagInv :
+  forall g k label st det cr, (forall d, In d (g_deps g) -> d_src d <> k /\ d_snk d <> k) ->
+    FlagInv g -> FlagInv (create_file g k label st det cr).
+Proof. exact create_file_sound. Qed.
+
+(* Trellis.create on an existing detached file node (UPDATE node SET creator, detached after its
+   incoming edges were deleted): no step row has that node id, no edge leads into it *)
+Theorem C10_place_file_preserves_FlagInv :
+  forall g k cr det, WF g ->
+    (forall s, In s (g_steps g) -> s_key s <> k) ->
+    (forall d, In d (g_deps g) -> d_snk d <> k) ->
+    FlagInv g -> FlagInv (place_file g k cr det).
+Proof. exact place_file_sound. Qed.
+
+(* File.set_state on a file without producer edge (any state change, VOLATILE included) *)
+Theorem C10_set_file_state_preserves_FlagInv_need_no_producer :
+  forall g k st h, (forall d, In d (g_deps g) -> d_snk d <> k) ->
+    FlagInv_need g -> FlagInv_need (set_file_state g k st h).
+Proof. exact set_file_state_need_sound_noin. Qed.
+
+(* File.detach on a file that is detached already (a product of a detached step: only the creator
+   link is cleared), whatever edges lead into it *)
+Theorem C10_detach_detached_file_preserves_FlagInv :
+  forall g k, (forall s, In s (g_steps g) -> s_key s <> k) ->
+    (forall f, In f (g_files g) -> f_key f = k -> f_detached f = true) ->
+    FlagInv g -> FlagInv (detach_file g k).
+Proof. exact detach_file_sound_detached. Qed.
+
+(* Step.after_recycle (UPDATE step SET need = ?, _holding = 0) on a row that Step.reattach has just
+   flagged; Step.set_duration (with its trigger); Step.set_resources *)
+Theorem C10_set_need_preserves_FlagInv :
+  forall g k nd, WF g ->
+    (forall s, In s (g_steps g) -> s_key s = k -> s_chk_safe s = true /\ s_chk_after s = true) ->
+    FlagInv g -> FlagInv (set_step_need g k nd).
+Proof. exact set_step_need_sound. Qed.
+Theorem C10_set_duration_preserves_FlagInv :
+  forall g k d, WF g -> FlagInv g -> FlagInv (set_step_duration g k d).
+Proof. exact set_step_duration_sound. Qed.
+Theorem C10_set_resources_preserves_FlagInv :
+  forall g k r, FlagInv g -> FlagInv (set_step_res g k r).
+Proof. exact set_step_res_sound. Qed.
 
 (* Step.detach (Node.detach + RECURSIVE_CHECK_WITH_PRODUCTS + RECURSIVE_CHECK_AFTER_SOURCES) keeps
    FlagInv.  Side conditions (trellis invariants, property C09): no file row has the step's node id;
